@@ -65,6 +65,14 @@ class MonkeyPatcher:
             namespace = {}
         if name in namespace:
             return namespace[name]
+        if isinstance(obj, type) and any(
+            name in vars(base) for base in obj.__mro__[1:]
+        ):
+            # Inherited by a class from a base class: its own namespace does
+            # not hold the name, and restoring means making that so again (a
+            # copy of what getattr() found would shadow the base class's
+            # descriptor).
+            return self._NO_SUCH_ATTRIBUTE
         return getattr(obj, name, self._NO_SUCH_ATTRIBUTE)
 
     def restore(self):
